@@ -84,6 +84,13 @@ def main():
             print("cannot run the correspondence: the repository does not compile with the verification harness")
             sys.exit(2)
         if a.replay:
+            # findings that are not harness requests (a client program, a table entry): replayed by re-running the property's own search
+            nonreq = [q for q in fixed_requests if q.startswith(("probe ", "table entry ", "chi-square "))]
+            if nonreq and hasattr(mod, "extra"):
+                for item in mod.extra(binary, build, tier, rng.fork("extra" + build)):
+                    if item.pop("kind") == "oracle" and item["request"] in nonreq:
+                        oracle_fail.append(item)
+            fixed_requests = [q for q in fixed_requests if q not in nonreq]
             requests = [q for q in fixed_requests if not q.startswith(("enum ", "stat ", "statd "))]
             statd_reqs = [q for q in fixed_requests if q.startswith("statd ")]
             if statd_reqs:
@@ -134,7 +141,7 @@ def main():
             o = mod.oracle(req, im, build) if hasattr(mod, "oracle") else None
             if o:
                 oracle_fail.append({"build": build, "request": req, "impl": im, "model": mo, "oracle": o})
-            if im != mo:
+            if (mod.canon(im) if hasattr(mod, "canon") else im) != mo:
                 disagreements.append({"build": build, "request": req, "impl": im, "model": mo})
         # extra, property-specific searches (exhaustive enumerations of small draw spaces …)
         if hasattr(mod, "extra") and not a.replay:
